@@ -238,7 +238,7 @@ func VerifH_C05_Concurrent() {
 // answers it) must not be satisfied by that reply.
 func VerifH_C05_LateReply() {
 	verifrt.Unwind(80)
-	verifrt.SchedBound(2)
+	verifrt.SchedBound(2 + verifrt.Tier) // thorough: one more deviation from the default schedule
 	conn := newVNetConn()
 	t := &PipelineTransport{opts: PipelineOpts{IsTCP: verifrt.Bool("tcp")}}
 	c := newPipelineConn(conn, t)
@@ -292,7 +292,7 @@ func VerifH_C05_LateReply() {
 // caller's ID back, and the shared payload is never seen modified.
 func VerifH_C05_SharedPayload() {
 	verifrt.Unwind(80)
-	verifrt.SchedBound(2)
+	verifrt.SchedBound(2 + verifrt.Tier) // thorough: one more deviation from the default schedule
 	conn := newVNetConn()
 	isTCP := verifrt.Bool("tcp")
 	t := &PipelineTransport{opts: PipelineOpts{IsTCP: isTCP}}
@@ -337,7 +337,7 @@ func VerifH_C05_SharedPayload() {
 // reply for its own wire ID with the caller's ID restored.
 func VerifH_C05_ConcurrentPreemptive() {
 	verifrt.Unwind(120)
-	verifrt.SchedBound(2)
+	verifrt.SchedBound(2 + verifrt.Tier) // thorough: one more deviation from the default schedule
 	verifrt.PreemptSync()
 	verifrt.NoTimers()
 	verifrt.CtxNoExpiry = true
